@@ -35,6 +35,7 @@ def norm_err(err):
     s = m.group(1) if m else (err.strip().split('\n')[-1] if err.strip() else 'unknown')
     s = re.sub(r"[‘'][^’']*[’']", 'X', s)
     s = re.sub(r';.*', '', s)
+    s = re.sub(r'\s*\[-W[^\]]*\]', '', s)
     s = re.sub(r"[A-Za-z_]*\d\w*", 'X', s)
     return re.sub(r'\s+', '_', s)[:120]
 
@@ -292,10 +293,48 @@ def py_ids(fields, vt_max):
     return [(i, i - 1 if u else None) for i, u in fields], n
 
 
+def replay(ctx, rp, cons):
+    """re-run one recorded failing input: schema files through every shape (compile only), or a struct / id-list case"""
+    import json
+    flatcc = ctx.flatcc()
+    if 'schema_files' in rp:
+        d = os.path.join(ctx.bdir, 'replay'); src = os.path.join(d, 'src'); os.makedirs(src, exist_ok=True)
+        for n, t in rp['schema_files'].items(): open(os.path.join(src, n), 'w').write(t)
+        root = os.path.join(src, rp.get('root') or sorted(rp['schema_files'])[0]); rb = os.path.basename(root)[:-4]
+        tu = ''.join('#include "%s_%s.h"\n' % (rb, k) for k in KINDS) + 'int main(void) { return 0; }\n'
+        shapes = [('all', ['-a', '--json']), ('g', ['-g', '-a', '--json']), ('prefix', ['-a', '--json', '--prefix=zz_']), ('commonprefix', ['-a', '--json', '--common-prefix=cpx'])]
+        if rp.get('options'): shapes.insert(0, ('recorded', rp['options']))
+        for shape, opts in shapes:
+            od = os.path.join(d, shape); os.makedirs(od, exist_ok=True)
+            rc, out, err = U.run([flatcc] + [o for o in opts if not o.startswith('--outfile')] + ['-I', src, '-o', od, root], timeout=120)
+            ctx.count(shape, klass='replay')
+            if '--stdout' in opts: continue
+            if rc != 0:
+                ctx.violation('schema-rejected', 'flatcc %s failed: %s' % (' '.join(opts), err[:300]), rp); continue
+            hs = [k for k in KINDS if os.path.exists(os.path.join(od, '%s_%s.h' % (rb, k)))]
+            rc, err = syntax(''.join('#include "%s_%s.h"\n' % (rb, k) for k in hs) + 'int main(void) { return 0; }\n', os.path.join(od, 'tu.c'), [od])
+            if rc != 0:
+                ctx.violation('compile:%s:%s' % (err_site(err), norm_err(err)), 'generated code (%s) does not compile: %s' % (shape, '\n'.join(l for l in err.split('\n') if 'error' in l)[:600]), rp)
+    if 'model_line' in rp:
+        mr = ctx.run_model('layout', [rp['model_line']])[0]
+        d = os.path.join(ctx.bdir, 'replay'); os.makedirs(d, exist_ok=True)
+        p = os.path.join(d, 'case.fbs'); open(p, 'w').write(rp['schema'])
+        rc, out, err = U.run([flatcc, '-o', d, p], timeout=60)
+        ctx.count(rp['model_line'], klass='replay')
+        ctx.log('model: %s   rule: %s   flatcc rc: %s %s' % (mr, rp.get('rule'), rc, err[:200]))
+        if rc < 0 or rc in (124, 134, 139): ctx.violation(rp['key'], 'flatcc died (rc %s)' % rc, rp)
+        elif (rc == 0) != (rp.get('rule') != 'X') or mr != rp.get('rule'):
+            ctx.violation(rp['key'], 'still disagrees: model %s, rule %s, flatcc rc %s' % (mr, rp.get('rule'), rc), rp)
+    ctx.finish_args = dict(rule='replay of one recorded input', explanation='replay')
+
+
 def run(ctx):
     rng = ctx.rng
     cons = U.config_consts(ctx)
     SMAX, AMAX, VT = cons['struct_max'], cons['force_align_max'], cons['vt_max']
+    if ctx.replay_in:
+        import json
+        return replay(ctx, json.load(open(ctx.replay_in)), cons)
     ok = U.check_theorems(ctx, 'Properties_C07', U.LAYOUT_VS[:5])
     if not ok: ctx.broken_obligation('Properties_C07.vo', getattr(ctx, 'broken', {}))
     # side conditions of the theorems hold for this configuration
